@@ -122,7 +122,6 @@ impl SATSolver {
 // R-enumerate for the index-building loop; `for _ in` gets a named index.
 //%% extract src/repr/unit_prop.rs :: impl SATSolver :: fn new
 //%% @ret r
-//%% @attr #[verifier::loop_isolation(false)]
 //%% @rewrite 1 /\/\/ normalize the clauses by \(1\) deduplicating and \(2\) filtering\n.*?let clauses: Vec<Vec<\(Literal, u128\)>> = i\n.*?\.collect\(\);\n/ => let clauses: Vec<Vec<(Literal, u128)>> = verif_weighted_clauses(&cnf);\n
 //%% @rewrite 1 /let mut pos_lit = Vec::new\(\);/ => let mut pos_lit: Vec<BitSet> = Vec::new();
 //%% @rewrite 1 /let mut neg_lit = Vec::new\(\);/ => let mut neg_lit: Vec<BitSet> = Vec::new();
@@ -145,11 +144,13 @@ impl SATSolver {
 //%% @loop 2 /^for clause_idx in 0\.\.clauses\.len\(\)$/
                     invariant
                         pos_lit@.len() == cnf.num_vars, neg_lit@.len() == cnf.num_vars,
+                        forall|a: int, b: int| 0 <= a < clauses@.len() && 0 <= b < clauses@[a]@.len() ==> (#[trigger] clauses@[a]@[b]).0.lbl.0 < cnf.num_vars,
                         forall|v: int, i: usize| 0 <= v < pos_lit@.len() ==> ((#[trigger] pos_lit@[v]@.contains(i)) == (i < clause_idx && wcontains(clauses@[i as int]@, Literal { lbl: VarLabel(v as u64), pol: true }))),
                         forall|v: int, i: usize| 0 <= v < neg_lit@.len() ==> ((#[trigger] neg_lit@[v]@.contains(i)) == (i < clause_idx && wcontains(clauses@[i as int]@, Literal { lbl: VarLabel(v as u64), pol: false }))),
 //%% @loop 3 /^for lit in lt__it: clause\.iter\(\)$/
                         invariant
-                            pos_lit@.len() == cnf.num_vars, neg_lit@.len() == cnf.num_vars, clause@ == clauses@[clause_idx as int]@,
+                            pos_lit@.len() == cnf.num_vars, neg_lit@.len() == cnf.num_vars, clause@ == clauses@[clause_idx as int]@, clause_idx < clauses@.len(),
+                            forall|a: int, b: int| 0 <= a < clauses@.len() && 0 <= b < clauses@[a]@.len() ==> (#[trigger] clauses@[a]@[b]).0.lbl.0 < cnf.num_vars,
                             forall|v: int, i: usize| 0 <= v < pos_lit@.len() ==> ((#[trigger] pos_lit@[v]@.contains(i)) ==
                                 ((i < clause_idx && wcontains(clauses@[i as int]@, Literal { lbl: VarLabel(v as u64), pol: true }))
                                  || (i == clause_idx && wcontains_upto(clause@, lt__it.index@, Literal { lbl: VarLabel(v as u64), pol: true })))),
